@@ -341,6 +341,10 @@ impl Pipeline {
     }
 
     /// Execute a multi-stage pipeline with streaming (same input/output type)
+    ///
+    /// Returns an error if a stage fails or exceeds the stage timeout on some
+    /// item; the items already delivered to `output_tx` are then a prefix of
+    /// the full result.
     pub async fn execute_stream<T>(
         &self,
         stages: Vec<Box<dyn PipelineStage<T, T>>>,
@@ -413,6 +417,9 @@ impl Pipeline {
             let pipeline_stats = self.stats.clone();
 
             let handle = tokio::spawn(async move {
+                // The first failure of this stage; reported by execute_stream
+                let mut outcome: Result<()> = Ok(());
+
                 while let Some(item) = stage_input_rx.recv().await {
                     let start_time = Instant::now();
                     stage_stats.active_items.fetch_add(1, Ordering::Relaxed);
@@ -438,8 +445,14 @@ impl Pipeline {
                                 .total_processed
                                 .fetch_add(1, Ordering::Relaxed);
                         }
-                        Ok(Err(_)) | Err(_) => {
-                            // Stage failed or timed out
+                        Ok(Err(e)) => {
+                            // Stage failed: stop the stream and report why
+                            outcome = Err(e);
+                            break;
+                        }
+                        Err(_) => {
+                            // Stage timed out
+                            outcome = Err(ZiporaError::configuration("stage timeout"));
                             break;
                         }
                     }
@@ -450,17 +463,33 @@ impl Pipeline {
                 }
 
                 drop(output_tx); // Signal end of stream
+                outcome
             });
 
             handles.push(handle);
         }
 
-        // Wait for all stages to complete
+        // Wait for all stages to complete and surface the first failure: a
+        // failed or timed-out item ends the stream early, so the caller must
+        // not mistake the truncated output for a complete one
+        let mut first_error = None;
         for handle in handles {
-            let _ = handle.await;
+            let stage_result = match handle.await {
+                Ok(result) => result,
+                Err(e) => Err(ZiporaError::configuration(format!(
+                    "pipeline stage task failed: {}",
+                    e
+                ))),
+            };
+            if let Err(e) = stage_result {
+                first_error.get_or_insert(e);
+            }
         }
 
-        Ok(())
+        match first_error {
+            Some(e) => Err(e),
+            None => Ok(()),
+        }
     }
 
     /// Process a batch of items through a single stage
